@@ -302,7 +302,7 @@ def _shard_unit(args):
   from ml_metrics._src.chainables import io
   splits, depth, offsets_all, want_sample = args
   st = Stats()
-  with _Deadline(900):
+  with _Deadline(3600):
     for split in splits:
       n = sum(split)
       rows = [val(i) for i in range(n)]
@@ -551,7 +551,7 @@ def check_multiplex_sequence(st, split, depth):
 def _receiver_unit(args):
   kind, split, depth, recv_depth, chunk, want_sample = args
   st = Stats()
-  with _Deadline(900):
+  with _Deadline(3600):
     if kind == 'receiver':
       check_receivers(st, split, depth, recv_depth, chunk)
     else:
@@ -595,7 +595,7 @@ def _iterable_unit(args):
   from ml_metrics._src.chainables import io
   ns, kinds, want_sample = args
   st = Stats()
-  with _Deadline(300):
+  with _Deadline(3600):
     for n, kind in itt.product(ns, kinds):
       rows = [val(i) for i in range(n)]
       root = io.ShardedIterable(_container(kind, rows))
@@ -798,7 +798,7 @@ def _merged_unit(args):
   splits, kinds, mbss, nested, want_sample = args
   n_nested, p_nested, mbs_nested = nested
   st = Stats()
-  with _Deadline(300):
+  with _Deadline(3600):
     for split in splits:
       for kind in kinds:
         for mbs in mbss:
@@ -921,7 +921,7 @@ def check_merged_failing(st, split, which, bad, sliceable, a, b, mbs):
 def _range_unit(args):
   cases, mbss, msplits, want_sample = args
   st = Stats()
-  with _Deadline(120):
+  with _Deadline(3600):
     for n, bad in cases:
       for sliceable in (True, False):
         for start in range(n + 1):
